@@ -627,7 +627,9 @@ def near_boundary_points(rng, curve, n, dists):
     pts = []
     for _ in range(n):
         ctrl = rng.choice(curve)
-        t = Fr(rng.randint(1, 63), 64)
+        # not only dyadic parameters: pieces obtained by bisection meet their chords there
+        den = rng.choice([64, 61, 97, 1000])
+        t = Fr(rng.randint(1, den - 1), den)
         p = O.evaluate(ctrl, t)
         d = O.evaluate(O.derivative_ctrl(ctrl, 1), t) if len(ctrl) > 1 else (Fr(1), Fr(0))
         norm = math.hypot(float(d[0]), float(d[1]))
